@@ -510,6 +510,50 @@ def unchanged_case(name, mk, info, fix, k=1):
     return Case(cname, body, goals, family="unchanged/" + name, params=dict(shape=name, fix=sorted(fix), **info), **_BOUNDS)
 
 
+def construction_case(op):
+    """building a combination (and partially evaluating it) leaves the OPERAND objects as they were: a constant operand
+    still declares no free variable after it was combined with a t-dependent partner, the partner still declares {t}"""
+    cname = "operands_untouched/%s" % op
+
+    def body(env):
+        a = SH.circle(env, tag="A")
+        b = SH.parallelogram(env, tag="B", dep="t")
+        s0a, s0b = _snapshot(a.dom), _snapshot(b.dom)
+        if op == "union":
+            d = a.dom + b.dom
+        elif op == "cut":
+            d = a.dom - b.dom
+        elif op == "intersection":
+            d = a.dom & b.dom
+        elif op == "intersection_dep_first":
+            d = b.dom & a.dom
+        elif op == "product":
+            d = b.dom * SH.interval(env, tag="I", var="t").dom
+        elif op == "translate":
+            d = SH.translate(env, a, dep="t").dom
+        elif op == "rotate":
+            d = SH.rotate(env, a, dep="t").dom
+        else:
+            raise ValueError(op)
+        nv_d = set(d.necessary_variables)
+        d.boundary
+        obj, el, t0 = _value(env, "t", "0d")
+        d2 = d(t=obj)
+        nv_d2 = set(d2.necessary_variables)
+        return dict(same_a=_snapshot(a.dom) == s0a, same_b=_snapshot(b.dom) == s0b, nv_a=set(a.dom.necessary_variables),
+                    nv_b=set(b.dom.necessary_variables), nv_d=nv_d, nv_d2=nv_d2)
+
+    def goals(o, L, env):
+        yield "constant_operand_unchanged", o["same_a"]
+        yield "dependent_operand_unchanged", o["same_b"]
+        yield "constant_operand_declares_no_variable", o["nv_a"] == set()
+        yield "dependent_operand_declares_t", o["nv_b"] == {"t"}
+        yield "combination_declares_its_free_variables", o["nv_d"] == (set() if op == "product" else {"t"})
+        yield "evaluated_combination_declares_none", o["nv_d2"] == set()
+
+    return Case(cname, body, goals, family="operands_untouched", params=dict(op=op), **_BOUNDS)
+
+
 # --------------------------------------------------------------------------
 # necessary_variables = free variables
 # --------------------------------------------------------------------------
@@ -816,6 +860,8 @@ def cases(tier):
     for order in ("ts", "st"):
         for what in ("contains", "sample"):
             cs.append(product_two_variable_factor_case(order, what))
+    for op in ("union", "cut", "intersection", "intersection_dep_first", "product", "translate", "rotate"):
+        cs.append(construction_case(op))
     if quick:
         for c in cs:
             c.budget_s = 60
